@@ -45,7 +45,9 @@ int get_max_hash_size() {
     return SHA512_DIGEST_SIZE;
 }
 
-static char unknown[] = "Unknown(\0\0\0\0\0\0\0\0\0\0\0\0\0\0\0\0\0\0\0\0\0\0";
+/* Returned to the caller, so it cannot live on the stack; one per thread so
+ * that concurrent callers do not overwrite each other's result */
+static _Thread_local char unknown[] = "Unknown(\0\0\0\0\0\0\0\0\0\0\0\0\0\0\0\0\0\0\0\0\0\0";
 
 const static char *HASH_NAME[] = {
     "SHA-1",
